@@ -146,7 +146,13 @@ fn check(ctx: &Ctx, label: &str, forms: &[Sx], sched: GcSchedule, sched_label: &
         (forms, None)
     };
     // cap the cost of a collection per instruction
-    let budget = if matches!(sched, GcSchedule::EveryK(1)) { 20_000 } else { 200_000 };
+    let budget = if label.starts_with("grown-heap") {
+        8_000_000
+    } else if matches!(sched, GcSchedule::EveryK(1)) {
+        20_000
+    } else {
+        200_000
+    };
     let base = crate::session::run_sut(forms, &RunOpts { instr_budget: budget, ..RunOpts::default() });
     if base.results.iter().any(|r| matches!(r, FormResult::OverBudget | FormResult::Panic(_))) {
         ctx.discard("baseline over budget or panicked");
@@ -196,6 +202,43 @@ fn check(ctx: &Ctx, label: &str, forms: &[Sx], sched: GcSchedule, sched_label: &
     }
 }
 
+/// A live structure several times the size of the first heap chunk (the heap has to grow while it
+/// is built and it spans the chunks), then garbage churn with collections every few thousand
+/// instructions and after every form, then the structure is read again.
+fn grown_heap_program(c: &mut Choices) -> (Vec<Sx>, GcSchedule, String) {
+    let n = *c.pick(&[2500usize, 5000, 9000][..]);
+    let (element, first) = *c.pick(
+        &[
+            ("(cons i (* i 2))", "(car (car l))"),
+            ("(vector i (list i) \"record\")", "(vector-ref (car l) 0)"),
+            ("(list i (string->symbol (string-append \"c03-big-\" (number->string (remainder i 97)))) (lambda () i))", "((car (cdr (cdr (car l)))))"),
+        ][..],
+    );
+    let k = *c.pick(&[2003u64, 4099, 9973][..]);
+    let churn = *c.pick(&[8000usize, 20000][..]);
+    let src = format!(
+        "(define (c03-mk n) (let loop ((i 0) (acc '())) (if (< i n) (loop (+ i 1) (cons {element} acc)) acc))) \
+         (define c03-big (c03-mk {n})) \
+         (define (c03-sum l acc) (if (null? l) acc (c03-sum (cdr l) (+ acc {first})))) \
+         (define (c03-churn n) (let loop ((i 0)) (if (< i n) (begin (vector i (list i i)) (loop (+ i 1))) 'ok))) \
+         (c03-sum c03-big 0) (c03-churn {churn}) (c03-sum c03-big 0) \
+         (define c03-big2 (c03-mk {half})) (c03-churn {churn}) \
+         (list (length c03-big) (c03-sum c03-big 0) (c03-sum c03-big2 0))",
+        element = element,
+        first = first,
+        n = n,
+        half = n / 2,
+        churn = churn
+    );
+    (read_all(&src).expect("grown-heap template parses"), GcSchedule::EveryK(k), format!("every-{}", k))
+}
+
+fn grown_heap_case(ctx: &Ctx, bytes: &[u8]) -> Outcome {
+    let mut c = Choices::new(bytes);
+    let (forms, sched, label) = grown_heap_program(&mut c);
+    check(ctx, "grown-heap", &forms, sched, &label, 1, true, false)
+}
+
 fn case(ctx: &Ctx, bytes: &[u8]) -> Outcome {
     let mut c = Choices::new(bytes);
     let (sched, label, every) = decode_schedule(&mut c);
@@ -224,7 +267,7 @@ impl Prop for C03 {
         "C03"
     }
     fn rule(&self) -> &'static str {
-        "programs (generated sessions with call/cc, scope skeletons, 10 allocation-heavy templates with random sizes) x one collection schedule (every instruction; every k-th, k in 2..16; random p=1/3; random p=1/50; optionally also after every top-level form). Each is run without forced collections and with the schedule; results/output are compared with each other and with the reference interpreter, and at every observed collection the harness' own reachability set is checked against the heap after the sweep (nothing reachable freed or changed, symbol table = allocated symbols, free list consistent). Non-trivial: at least one checked collection happened while a continuation was reachable or the stack was above the entry frame; distinct by (program, schedule)."
+        "programs (generated sessions with call/cc, scope skeletons, 12 allocation-heavy templates with random sizes) x one collection schedule (every instruction; every k-th, k in 2..16; random p=1/3; random p=1/50; optionally also after every top-level form). Each is run without forced collections and with the schedule; results/output are compared with each other and with the reference interpreter, and at every observed collection the harness' own reachability set is checked against the heap after the sweep (nothing reachable freed or changed, symbol table = allocated symbols, free list consistent). Plus grown-heap scenarios: a live list of 2500-9000 records built while the heap grows past its first chunk, garbage churn with a collection every 2003/4099/9973 instructions and after every form, the structure read again. Non-trivial: at least one checked collection happened while a continuation was reachable or the stack was above the entry frame; distinct by (program, schedule)."
     }
     fn assumptions(&self) -> Vec<&'static str> {
         vec![
@@ -237,8 +280,13 @@ impl Prop for C03 {
         ctx.journal_bytes.set(true);
         let cases = ctx.tier.pick(320u32, 8_000u32);
         ctx.run_bytes("program", cases, 1536, case);
+        let grown = ctx.tier.pick(2u32, 12u32);
+        ctx.run_bytes("grown-heap", grown, 8, grown_heap_case);
     }
-    fn replay(&self, ctx: &Ctx, _kind: &str, payload: &Value) -> Outcome {
+    fn replay(&self, ctx: &Ctx, kind: &str, payload: &Value) -> Outcome {
+        if kind == "grown-heap" {
+            return grown_heap_case(ctx, &unhex(payload["bytes"].as_str().unwrap_or("")));
+        }
         if let Some(p) = payload["program"].as_str() {
             // hand-written reproducer: program text + schedule label
             let forms = match read_all(p) {
